@@ -771,6 +771,8 @@ func (in *Interp) contains(a, b Value) (Value, *Err) {
 			lookFor = []Value{a}
 		}
 		if _, isList := a.(*List); isList && len(lookFor) == 0 {
+			// nothing to look for: whether the other list is touched at all (its first item may fail) is open
+			in.probe(y.Iter())
 			return true, nil
 		}
 		found := make([]bool, len(lookFor))
